@@ -1,8 +1,8 @@
 package props
 
 import (
-	"go/constant"
 	"fmt"
+	"go/constant"
 
 	"golang.org/x/tools/go/ssa"
 
